@@ -74,53 +74,20 @@ be used): the result is never a panic, and the request is left waiting only if t
 itself went silent (the whole script was consumed without an answer). Otherwise it is a response,
 a connect error, or the channel-closing error. -/
 theorem C14_definite_result (r : R) (env : List Ans) (hs : r.st ≠ .spent) :
-    (serve r env).2.2 ≠ .panic ∧ ((serve r env).2.2 = .hang → (serve r env).2.1 = []) := by
-  unfold serve drive
-  by_cases he : r.error.isSome = true
-  · cases hr : r.error with
-    | none => simp [hr] at he
-    | some e => simp [call, hr]
-  · simp only [he]
-    obtain ⟨h1, h2, h3⟩ := driveLoop_outcome r env hs
-    rcases hd : driveLoop r env with ⟨r1, env1, p⟩
-    rw [hd] at h1 h2 h3
-    simp only at h1 h2 h3
-    cases p with
-    | ready =>
-      obtain ⟨hc, _⟩ := h3 rfl
-      unfold call
-      rcases hc with hc | ⟨c, hc⟩
-      · cases hr : r1.error with
-        | none => simp [hr] at hc
-        | some e => simp [hr]
-      · cases hr : r1.error <;> simp [hc, hr]
-    | failed e => simp
-    | pending => simpa using h2
-    | panic => exact absurd rfl h1
+    (serve r env).2.2 ≠ .panic ∧ ((serve r env).2.2 = .hang → (serve r env).2.1 = []) :=
+  serve_definite r env hs
 
-/-- Over a whole session of any length on any script, starting from a freshly built lazy channel
-or from an eager one that connected: no call ever panics. -/
-theorem C14_session_never_panics (r : R) (env : List Ans) (n : Nat) (hs : r.st ≠ .spent) :
-    Res.panic ∉ (session r env n).1 := by
-  induction n generalizing r env with
-  | zero => simp [session]
-  | succ n ih =>
-    have hd := C14_definite_result r env hs
-    have hns := serve_not_spent r env hs
-    unfold session
-    rcases hsv : serve r env with ⟨r', env', res⟩
-    rw [hsv] at hd hns
-    simp only at hd hns
-    cases res with
-    | closed e => simp [List.mem_replicate]
-    | hang => simp
-    | panic => exact absurd rfl hd.1
-    | resp c =>
-      have := ih r' env' (hns (by simp))
-      simpa using this
-    | err e =>
-      have := ih r' env' (hns (by simp))
-      simpa using this
+/-- Over a whole session of any length on any script, from any state in use with no stored error
+(a freshly built lazy channel, an eager one that connected, or any state in between calls): no
+call panics; a call is left waiting only if the script is exhausted; and the channel closes only
+through a failure that happened (`poll_ready` itself failing — a connector whose own `poll_ready`
+errors, outside the property's fault alphabet). -/
+theorem C14_session_definite (r : R) (env : List Ans) (n : Nat) (he : r.error = none)
+    (hs : r.st ≠ .spent) :
+    Res.panic ∉ (session r env n).1 ∧
+    (Res.hang ∈ (session r env n).1 → (session r env n).2.2 = []) ∧
+    (∀ e, Res.closed e ∈ (session r env n).1 → e ∈ failures env) :=
+  session_facts n r env he hs
 
 /-! ## an eager channel reports an initial failure immediately; a lazy one hands it to the first call -/
 
@@ -233,6 +200,28 @@ theorem C14_recovers_after_peer_drop (r : R) (c x p : Nat) (env : List Ans) (he 
   simp only at h1 h2 h3
   subst h1
   simp [call, h3, h2, target]
+
+/-! ## the oracle holds of the model at the two lower levels too -/
+
+/-- For every script, mode and number of calls, what the model does when driven like `Channel`
+drives it (`ready_oneshot` if eager, then the buffer worker) satisfies every clause of the
+flat-script oracle — the predicate the check evaluates on the real `Reconnect` behind a real
+`tower::buffer::Buffer`. -/
+theorem C14_session_spec (isLazy : Bool) (env : List Ans) (n : Nat) :
+    (Spec.Reconnect.sessBuildClauses isLazy env (channelSession isLazy env n).1
+        (channelSession isLazy env n).2.2.2.length ++
+      Spec.Reconnect.sessClauses env (channelSession isLazy env n).2.1
+        (channelSession isLazy env n).2.2.2.length).all (·.2) = true :=
+  channelSession_spec isLazy env n
+
+/-- For every script and every sequence of `poll_ready` / `call` (disciplined or not), what the
+model does satisfies the single-operation oracle: a panic only outside `tower`'s `Service`
+contract (a `call` not directly after a ready `poll_ready`, or any use after `poll_ready`
+returned an error), ready means an error to hand out or a connection, a handed-out error is
+cleared, and no error is replayed. -/
+theorem C14_unit_spec (l : Bool) (env : List Ans) (ops : List UOp) :
+    (Spec.Reconnect.unitClauses env ((runOps (R.init l) env ops).1.map toObs)).all (·.2) = true :=
+  runOps_spec l env ops
 
 /-! ## the whole property on end-to-end fault scripts -/
 
